@@ -154,7 +154,7 @@ func parseArEntry(line []byte) (*ArEntry, error) {
 	}
 
 	entry := ArEntry{
-		Name:     strings.TrimSuffix(strings.TrimSpace(string(line[0:16])), "/"),
+		Name:     strings.TrimSuffix(strings.TrimRight(string(line[0:16]), " "), "/"),
 		FileMode: strings.TrimSpace(string(line[40:48])),
 	}
 
